@@ -290,6 +290,22 @@ pub fn run(tier: Tier, seed: u64) -> i32 {
         total.merge(st);
     }
 
+    // T5b: 63 / 64 / 70 X inputs in one row, pulled lazily (2^64 and more executed rows)
+    for nx in [63usize, 64, 70] {
+        let mut s5: Vec<Sig> = (0..nx).map(|i| Sig::inp(&format!("I{i}"), 1, 0)).collect();
+        s5.push(Sig::inp("CLK", 1, 0));
+        s5.push(Sig::out("p", 64));
+        let mut h: Vec<String> = (0..nx).map(|i| format!("I{i}")).collect();
+        h.push("CLK".into());
+        h.push("p".into());
+        let mut row: Vec<Entry> = (0..nx).map(|_| Entry::X).collect();
+        row.push(Entry::C);
+        row.push(Entry::X);
+        let prog = Program { header: h, body: vec![Stmt::Row(row)] };
+        total.witness("sixty_four_and_more_x_inputs");
+        run_case_n(&mut total, (9 << 40) + nx as u64, &format!("T5b: {nx} X inputs and a clock in one row"), &prog, &s5, &[Step::Ans(vec![("p".into(), V::Num(1))])], true, 20);
+    }
+
     // T6: the C01/C18 program space under hostile constant answers
     let lists = c01::signal_lists();
     let hdr: Vec<String> = ["P0", "P1", "P2", "a", "i", "n", "Q"].iter().map(|s| s.to_string()).collect();
@@ -414,7 +430,7 @@ pub fn run(tier: Tier, seed: u64) -> i32 {
     }
     total.sample(|| json!({"T1_example": "A O D D_out / ( p / q ) ( p / q ) ( p / q ) ( p / q ) with p = MIN, q = -1 on 63-bit signals", "oracle": "never panics (construction, next, vars, static iteration); error item exactly where the reference predicts division by zero, unassigned variable, empty random range, unimplemented function, Z/X read; rows otherwise"}));
     let mut required: Vec<&'static str> = POSITIONS.to_vec();
-    required.extend(["division_or_remainder_by_zero", "variable_never_assigned_on_the_executed_path", "read_of_Z_or_X", "empty_random_range", "function_not_implemented", "signal_width_63_or_64", "driver_error_at_a_call", "layout_omits_a_read_output", "driver_returns_Z_or_X", "bits_64", "static_iteration_exercised", "accepted_pair_iterated", "history_of_rows", "caller_carries_on_after_an_error_item", "accepted_text_beyond_the_small_scope_iterated"]);
+    required.extend(["division_or_remainder_by_zero", "variable_never_assigned_on_the_executed_path", "read_of_Z_or_X", "empty_random_range", "function_not_implemented", "signal_width_63_or_64", "driver_error_at_a_call", "layout_omits_a_read_output", "driver_returns_Z_or_X", "bits_64", "static_iteration_exercised", "accepted_pair_iterated", "history_of_rows", "caller_carries_on_after_an_error_item", "accepted_text_beyond_the_small_scope_iterated", "sixty_four_and_more_x_inputs"]);
     let meta = CheckMeta {
         id: "C10",
         tier,
